@@ -412,6 +412,19 @@ def cases(tier, seed):
         if fname != "pow-0.5s":  # 0**-0.5 is inf, which the exact model does not represent
             out.append((f"arnoldi-padded:{fname}:n2m4", case_krylov, dict(which="arnoldi", fname=fname, n=2, max_iters=4), dict(abs_gen=False)))
         out.append((f"lanczos-padded:{fname}:n3m5", case_krylov, dict(which="lanczos", fname=fname, n=3, max_iters=5), dict(abs_gen=False)))
+    if tier == "thorough":
+        FN2 = FN + ["pow2", "pow-1", "pow3", "pow-2", "pow1.5"]
+        out.append(("eigh:n3-all", case_eigh, dict(n=3, fnames=FN2, algs=["default", "Auto", "Eigh", "Eig"])))
+        out.append(("eigh:n4", case_eigh, dict(n=4, fnames=["exp", "log", "pow0.5s", "pow-0.5s"], algs=["default", "Eigh"])))
+        out.append(("eigh:n2-all", case_eigh, dict(n=2, fnames=FN2, algs=["default", "Auto", "Eigh", "Eig"])))
+        out.append(("eigh:n3-selfadjoint", case_eigh, dict(n=3, fnames=FN, algs=["default", "Eigh"], declared="SelfAdjoint")))
+        out.append(("eigh:n3-undeclared", case_eigh, dict(n=3, fnames=["exp", "pow0.5s", "log"], algs=["default"], declared=None)))
+        out.append(("eig:n2-all", case_eig, dict(fnames=FN2, algs=["default", "Auto", "Eig"])))
+        out.append(("eig:degenerate-all", case_eig_degenerate, dict(fnames=FN2, algs=["default", "Eig"], declared="SelfAdjoint")))
+        for kind in ("diag", "scalar", "identity", "blockdiag", "transpose", "adjoint"):
+            out.append((f"rule-more:{kind}", case_structural, dict(kind=kind, fnames=["pow2", "pow-1", "pow3", "pow1.5", "apply_exp"])))
+        for n in (4, ):
+            out.append((f"powers:n{n}", case_powers, dict(n=n), dict(max_paths=40, partial_ok=True)))
     out.append(("arnoldi-tiny-eigenvalue:exp", case_krylov, dict(which="arnoldi", fname="exp", n=2, tiny=True), dict(abs_gen=False, validate=False)))
     return out
 
